@@ -223,6 +223,14 @@ def run_job(args):
                     status, rec = replay_gate(eng, vc, spec, ctx.consts, ctx.int_names, vc.query, neutralisers=neutralisers)
                     r = status
                 recs.append((vc, r, rec))
+            # attribution of a structural finding that is only acceptable when a companion obligation was discharged on this path
+            for (vc, r, rec) in recs:
+                a = vc.info.get("attribute")
+                if a and r == "violation" and rec is not None:
+                    ok = all(r2 == "unsat" for (vc2, r2, _) in recs if vc2.name in a["requires_unsat"])
+                    present = any(vc2.name in a["requires_unsat"] for (vc2, _, _) in recs)
+                    if ok and present:
+                        rec["attributed"] = a["finding"]
             return recs
 
         def explore_and_tally(into):
@@ -266,7 +274,7 @@ def run_job(args):
                         into["violations"].append({"vc": vc.name, "info": vc.info, **(rec or {})})
 
         explore_and_tally(res)
-        hit = sorted({v.get("attributed") for v in res["violations"] if v.get("attributed")})
+        hit = sorted({v.get("attributed") for v in res["violations"] if v.get("attributed") in neutralisers})
         if hit:
             # the tree touches a known finding: re-explore with exactly that cause neutralised, so that the rest of the
             # input space of this tree stays verified and any OTHER violation is still reported (DESIGN.md section 5)
